@@ -41,7 +41,10 @@ CONSTANTS
   \* ---- behaviours beyond the listed properties (documented hazards; FALSE/{} in the deciding configs)
   AllowNested,          \* a thread that already holds a guard asks for another one (self-deadlock)
   OthersCall,           \* "never" | "atUser" | "always": when threads that hold nothing call patched functions
-  KeepPagesWritable     \* TRUE = what the kernel does (pages stay writable after the first patch)
+  KeepPagesWritable,    \* TRUE = what the kernel does (pages stay writable after the first patch)
+  TrampFlushed          \* FALSE = the macOS variant as read from the source: clear_cache() is empty there and only
+                        \* patch_function() invalidates the instruction cache, so trampoline contents written through
+                        \* inject_asm_code() get no platform flush (cannot be executed or confirmed in this sandbox)
 
 Free   == "free"
 NoSite == 0
@@ -229,7 +232,7 @@ WriteTramp(t) ==
 
 FlushTramp(t) ==
   /\ InInstall(t) /\ Done(t, "wtramp") /\ ~Done(t, "ftramp") /\ LinearOk(t, "ftramp")
-  /\ dirty' = dirty \ {TrampLoc(cur[t].tid)}
+  /\ dirty' = IF TrampFlushed THEN dirty \ {TrampLoc(cur[t].tid)} ELSE dirty
   /\ cur' = Mark(t, "ftramp")
   /\ UNCHANGED <<lock, poisoned, th, inj, dropst, code, orig, tramp, rw, ctr, aborted, fault, inflight>>
 
